@@ -24,7 +24,7 @@ ASSUMPTIONS = [
 ]
 BUDGET = {
     "quick": {"shards": 16, "examples": 30, "wall": 100},
-    "thorough": {"shards": 16, "examples": 700, "wall": 1200},
+    "thorough": {"shards": 16, "examples": 7000, "wall": 900},
 }
 
 
